@@ -7,10 +7,10 @@ Local Open Scope Z_scope.
 Ltac Zify.zify_post_hook ::= Z.div_mod_to_equations.
 Definition Xz xl h := if h <? 0 then xl + 1 else Z.max 0 (xl - h).
 Definition Nz rb rx now := (Z.max 0 (rb + rx - now) + 3999) / 4000.
-Definition Pz sw lr ls rx cap now := if sw =? 0 then Z.max 0 ((lr + 15000 - Z.max now (ls + Z.min rx cap) + 999) / 1000) else 0.
+Definition Pz sw lr ls rx now := if sw =? 0 then Z.max 0 ((lr + 15000 - Z.max now (ls + rx) + 999) / 1000) else 0.
 Definition Az ta := if ta =? 0 then 0 else 1.
 Definition Cz sw ls rb := if (sw =? 0) && (ls <? rb) then 1 else 0.
-Definition muZ xl cap h rb rx ls lr ta sw now := 18 * Xz xl h + 18 * Pz sw lr ls rx cap now + Nz rb rx now + Az ta + Cz sw ls rb.
+Definition muZ xl h rb rx ls lr ta sw now := 288 * Xz xl h + 18 * Pz sw lr ls rx now + Nz rb rx now + Az ta + Cz sw ls rb.
 Definition dlZ rb rx ls ta ad sw now :=
   let t1 := now + 4000 in
   let t2 := if ta =? 0 then t1 else Z.min t1 (ta + ad) in
@@ -25,64 +25,57 @@ Lemma Xz_step xl h : 15 <= xl <= 30 -> h < xl -> Xz xl ((h + 1) mod 256) <= Xz x
 Proof. unfold Xz. intros. destruct (h <? 0) eqn:E, ((h + 1) mod 256 <? 0) eqn:E'; lia. Qed.
 Lemma Nz_bounds rb rx now : rb <= now -> 0 <= rx <= 60000 -> 0 <= Nz rb rx now <= 15.
 Proof. unfold Nz. intros. lia. Qed.
-Lemma Pz_bounds sw lr ls rx cap now : lr <= now -> 0 <= Pz sw lr ls rx cap now <= 15.
+Lemma Pz_bounds sw lr ls rx now : lr <= now -> 0 <= Pz sw lr ls rx now <= 15.
 Proof. unfold Pz. intros. destruct (sw =? 0); lia. Qed.
 
 Lemma Nz_mono rb rx now now' : now <= now' -> Nz rb rx now' <= Nz rb rx now.
 Proof. unfold Nz. intros. lia. Qed.
 Lemma Nz_idle rb rx now now' : now + 4000 <= now' -> now' < rb + rx -> Nz rb rx now' <= Nz rb rx now - 1.
 Proof. unfold Nz. intros. lia. Qed.
-Lemma Pz_mono sw lr ls ls' rx rx' cap now now' :
-  ls <= ls' -> now <= now' -> Z.min rx cap <= Z.min rx' cap -> Pz sw lr ls' rx' cap now' <= Pz sw lr ls rx cap now.
+Lemma Pz_mono sw lr ls ls' rx now now' : ls <= ls' -> now <= now' -> Pz sw lr ls' rx now' <= Pz sw lr ls rx now.
 Proof. unfold Pz. intros. destruct (sw =? 0); lia. Qed.
-Lemma Pz_fire lr ls rx rx' cap now now' :
-  ls + rx <= now' -> now <= now' -> now' - lr < 15000 -> 1000 <= rx' -> 1000 <= cap ->
-  Pz 0 lr now' rx' cap now' <= Pz 0 lr ls rx cap now - 1.
+Lemma Pz_fire lr ls rx rx' now now' :
+  ls + rx <= now' -> now <= now' -> now' - lr < 15000 -> 1000 <= rx' -> Pz 0 lr now' rx' now' <= Pz 0 lr ls rx now - 1.
 Proof. unfold Pz. cbn [Z.eqb]. intros. lia. Qed.
 Lemma Az_bounds ta : 0 <= Az ta <= 1. Proof. unfold Az. destruct (ta =? 0); lia. Qed.
 Lemma Cz_bounds sw ls rb : 0 <= Cz sw ls rb <= 1. Proof. unfold Cz. destruct ((sw =? 0) && (ls <? rb)); lia. Qed.
-Lemma muZ_bounds xl cap h rb rx ls lr ta sw now :
-  15 <= xl <= 30 -> rb <= now -> 0 <= rx <= 60000 -> lr <= now -> 0 <= muZ xl cap h rb rx ls lr ta sw now <= 845.
+Lemma muZ_bounds xl h rb rx ls lr ta sw now :
+  15 <= xl <= 30 -> rb <= now -> 0 <= rx <= 60000 -> lr <= now -> 0 <= muZ xl h rb rx ls lr ta sw now <= 9215.
 Proof.
   intros. unfold muZ. pose proof (Xz_bounds xl h ltac:(lia)). pose proof (Nz_bounds rb rx now ltac:(lia) ltac:(lia)).
-  pose proof (Pz_bounds sw lr ls rx cap now ltac:(lia)). pose proof (Az_bounds ta). pose proof (Cz_bounds sw ls rb). lia.
+  pose proof (Pz_bounds sw lr ls rx now ltac:(lia)). pose proof (Az_bounds ta). pose proof (Cz_bounds sw ls rb). lia.
 Qed.
 Ltac ifs := repeat match goal with |- context [if ?b then _ else _] => destruct b eqn:? end.
 
-Lemma round_arith xl cap sw lr ad h rb rx ls ta now now' hB lsB taB h1 rb1 rx1 ls1 ta1 ls2 rx2 ta2 ls3 ta3 :
-  15 <= xl <= 30 -> (cap = 1000 \/ cap = 60000) -> 1000 <= rx <= 60000 -> 0 <= ad <= 60000 ->
+Lemma round_arith xl sw lr ad h rb rx ls ta now now' hB lsB taB h1 rb1 rx1 ls1 ta1 ls2 rx2 ta2 ls3 ta3 :
+  15 <= xl <= 30 -> 1000 <= rx <= 60000 -> 0 <= ad <= 60000 ->
   0 < rb <= now -> 0 <= ls <= now -> 0 <= lr <= now -> 0 <= ta <= now ->
   now <= now' -> dlZ rb rx ls ta ad sw now <= now' ->
   h <= hB -> (lsB = ls \/ lsB = now') -> (taB = ta \/ taB = 0) ->
-  (rb + rx <= now' -> hB < xl /\ h1 = (hB + 1) mod 256 /\ rb1 = now' /\ rx1 = Z.min cap (2 * rx) /\ (ls1 = lsB \/ ls1 = now') /\ (ta1 = taB \/ ta1 = 0)) ->
+  (rb + rx <= now' -> hB < xl /\ h1 = (hB + 1) mod 256 /\ rb1 = now' /\ 1000 <= rx1 <= 60000 /\ (ls1 = lsB \/ ls1 = now') /\ (ta1 = taB \/ ta1 = 0)) ->
   (now' < rb + rx -> h1 = hB /\ rb1 = rb /\ rx1 = rx /\ ls1 = lsB /\ ta1 = taB) ->
   (sw = 0 /\ ls1 + rx1 <= now' -> now' - lr < 15000 /\ ls2 = now' /\ rx2 = Z.min 60000 (2 * rx1) /\ ta2 = 0) ->
   (~ (sw = 0 /\ ls1 + rx1 <= now') -> ls2 = ls1 /\ rx2 = rx1 /\ ta2 = ta1) ->
   (ta2 <> 0 /\ ta2 + ad <= now' -> ta3 = 0 /\ (ls3 = ls2 \/ ls3 = now')) ->
   (~ (ta2 <> 0 /\ ta2 + ad <= now') -> ta3 = ta2 /\ ls3 = ls2) ->
-  muZ xl cap h1 rb1 rx2 ls3 lr ta3 sw now' < muZ xl cap h rb rx ls lr ta sw now.
+  muZ xl h1 rb1 rx2 ls3 lr ta3 sw now' < muZ xl h rb rx ls lr ta sw now.
 Proof.
-  intros Hxl Hcap Hrx Had Hrb Hls Hlr Hta Hn Hdl HB LB TB R1 R0 P1 P0 A1 A0.
+  intros Hxl Hrx Had Hrb Hls Hlr Hta Hn Hdl HB LB TB R1 R0 P1 P0 A1 A0.
   unfold muZ.
   pose proof (Xz_bounds xl h Hxl). pose proof (Xz_bounds xl h1 Hxl).
   pose proof (Xz_mono xl h hB Hxl HB).
   pose proof (Nz_bounds rb rx now ltac:(lia) ltac:(lia)).
-  pose proof (Pz_bounds sw lr ls rx cap now ltac:(lia)).
+  pose proof (Pz_bounds sw lr ls rx now ltac:(lia)).
   destruct (Z_le_gt_dec (rb + rx) now') as [Hdue|Hnd].
   - destruct (R1 Hdue) as (Hlt & -> & -> & Hrx1 & L1 & T1). clear R0 R1.
     pose proof (Xz_step xl hB Hxl Hlt).
-    assert (Hrx1' : 1000 <= rx1 <= 60000 /\ Z.min rx cap <= Z.min rx1 cap) by (destruct Hcap; lia).
-    assert (Hrx2 : 1000 <= rx2 <= 60000 /\ rx1 <= rx2 /\ ls1 <= ls2).
+    assert (1000 <= rx2 <= 60000).
     { destruct (Z.eq_dec sw 0) as [Hs|Hs]; [destruct (Z_le_gt_dec (ls1 + rx1) now')|].
-      - destruct P1 as (_ & -> & -> & _); lia.
-      - destruct P0 as (-> & -> & _); lia.
-      - destruct P0 as (-> & -> & _); lia. }
-    assert (Hls3 : ls2 <= ls3).
-    { destruct (Z.eq_dec ta2 0) as [Ht|Ht]; [destruct A0 as (_ & ->); lia|].
-      destruct (Z_le_gt_dec (ta2 + ad) now') as [Ha|Ha]; [destruct A1 as (_ & [->| ->]); lia|destruct A0 as (_ & ->); lia]. }
-    assert (Hls1 : ls <= ls1) by lia.
-    pose proof (Pz_mono sw lr ls ls3 rx rx2 cap now now' ltac:(lia) Hn ltac:(lia)).
+      - destruct P1 as (_ & _ & -> & _); lia.
+      - destruct P0 as (_ & -> & _); lia.
+      - destruct P0 as (_ & -> & _); lia. }
     pose proof (Nz_bounds now' rx2 now' ltac:(lia) ltac:(lia)).
+    pose proof (Pz_bounds sw lr ls3 rx2 now' ltac:(lia)).
     pose proof (Az_bounds ta3). pose proof (Az_bounds ta). pose proof (Cz_bounds sw ls3 now'). pose proof (Cz_bounds sw ls rb). lia.
   - destruct (R0 ltac:(lia)) as (-> & -> & -> & -> & ->). clear R0 R1.
     assert (Hls3 : ls <= lsB) by lia.
@@ -92,7 +85,7 @@ Proof.
       * destruct P1 as (Hage & -> & -> & ->); [lia|]. clear P0.
         destruct A0 as (-> & ->); [lia|]. clear A1.
         assert (lsB = ls) by lia. subst lsB.
-        pose proof (Pz_fire lr ls rx (Z.min 60000 (2 * rx)) cap now now' Hp Hn Hage ltac:(lia) ltac:(lia)).
+        pose proof (Pz_fire lr ls rx (Z.min 60000 (2 * rx)) now now' Hp Hn Hage ltac:(lia)).
         pose proof (Nz_bounds rb (Z.min 60000 (2 * rx)) now' ltac:(lia) ltac:(lia)).
         unfold Az, Cz. cbn [Z.eqb andb]. ifs; lia.
       * destruct P0 as (-> & -> & ->); [lia|]. clear P1.
@@ -100,7 +93,7 @@ Proof.
         { destruct (Z.eq_dec taB 0) as [Ht|Ht]; [destruct A0 as (-> & ->); lia|].
           destruct (Z_le_gt_dec (taB + ad) now') as [Ha|Ha]; [destruct A1 as (-> & L3); lia|destruct A0 as (-> & ->); lia]. }
         destruct Hl3 as (Hl3 & Ht3 & Hn3).
-        pose proof (Pz_mono 0 lr ls ls3 rx rx cap now now' ltac:(lia) Hn ltac:(lia)).
+        pose proof (Pz_mono 0 lr ls ls3 rx now now' ltac:(lia) Hn).
         pose proof (Nz_mono rb rx now now' Hn).
         destruct (Z_le_gt_dec (now + 4000) now') as [Hi|Hi]; [pose proof (Nz_idle rb rx now now' Hi ltac:(lia))|].
         -- unfold Az, Cz. cbn [Z.eqb andb]. ifs; lia.
@@ -110,7 +103,7 @@ Proof.
       { destruct (Z.eq_dec taB 0) as [Ht|Ht]; [destruct A0 as (-> & ->); lia|].
         destruct (Z_le_gt_dec (taB + ad) now') as [Ha|Ha]; [destruct A1 as (-> & L3); lia|destruct A0 as (-> & ->); lia]. }
       destruct Hl3 as (Hl3 & Ht3 & Hn3).
-      pose proof (Pz_mono sw lr ls ls3 rx rx cap now now' ltac:(lia) Hn ltac:(lia)).
+      pose proof (Pz_mono sw lr ls ls3 rx now now' ltac:(lia) Hn).
       pose proof (Nz_mono rb rx now now' Hn).
       destruct (Z_le_gt_dec (now + 4000) now') as [Hi|Hi]; [pose proof (Nz_idle rb rx now now' Hi ltac:(lia))|].
       * unfold Az, Cz. replace (sw =? 0) with false by lia. cbn [andb]. ifs; lia.
